@@ -529,7 +529,9 @@ func checkVerbatim(w *World, r *Report, rule string, inits []*ssa.Function) {
 				}
 			}
 			al, isAl := root.(*ssa.Alloc)
-			if !isAl || !copies[al] {
+			// a local copy of (a part of) the genesis data, or a record reached through a pointer the genesis data holds
+			// (an element of a list of pointers: `for _, av := range genState.Xs { av.F = ... }`)
+			if !(isAl && copies[al]) && !(!isAl && fromGenesis(root)) {
 				continue
 			}
 			n++
